@@ -487,7 +487,7 @@ package regexp2
 //@   props C03
 //@   requires r != nil
 //@ func findFirstCharOptimized(r *Runner) (handled bool, found bool)
-//@   trusted dispatcher and the FindMode-specific finders (findLeadingString..., findFixedDistance..., findLiteralAfterLoop..., findRequiredLandmarkChain...) are NOT verified: assumed never to skip a position with a successful attempt, given the published facts
+//@   trusted the dispatch itself: it is assumed to pass each finder the facts the analyzers publish and to turn the finder's text-level result ("no occurrence before this position") into "no successful attempt before it". The finders it calls are under contract (see the end of this file) except findLeadingStringsLeftToRight.
 //@   requires r != nil && r.code != nil && 0 <= r.Runtextpos && r.Runtextpos <= len(r.Runtext) && r.Runtextend == len(r.Runtext)
 //@   requires FinderFacts(r.code, r.Runtext, r.Runtextstart)
 //@   modifies r.Runtextpos
